@@ -122,10 +122,11 @@ Branches(par, Y) ==
        IN (IF RatCmp(Y, RatAdd(par.knee, w)) <= 0 THEN {"lin"} ELSE {})
           \cup (IF RatCmp(Y, RatSub0(par.knee, w)) >= 0 THEN {"pow"} ELSE {})
 
+(* the outcomes of comparing g(Y) with x, one per admissible branch *)
+CmpSet(par, Y, x) == {GCmp(par, br, Y, x) : br \in Branches(par, Y)}
 (* x < g(Y) for certain on every admissible branch / x > g(Y) likewise *)
-XBelow(par, Y, x) == \A br \in Branches(par, Y) : GCmp(par, br, Y, x) = 1
-XAbove(par, Y, x) == \A br \in Branches(par, Y) : GCmp(par, br, Y, x) = -1
-Decided(par, Y, x) == \A br \in Branches(par, Y) : GCmp(par, br, Y, x) # 0
+XBelow(par, Y, x) == CmpSet(par, Y, x) = {1}
+XAbove(par, Y, x) == CmpSet(par, Y, x) = {-1}
 
 (* g(Ylo) <= x <= g(Yhi) is not refuted *)
 Between(par, x, Ylo, Yhi) == ~XBelow(par, Ylo, x) /\ ~XAbove(par, Yhi, x)
@@ -136,14 +137,20 @@ OnCurve(curve, x, Ylo, Yhi) ==
 -----------------------------------------------------------------------------
 (* The integer codes.  "Error below 0.6 of one code": |max * f(x) - k| < 0.6, i.e.
    g((k - 0.6)/max) < x < g((k + 0.6)/max); x the exact value of the f32 (a Dy >= 0) *)
-Within06(curve, max, k, x) ==
-  OnCurve(curve, RatOfDy(x), IF k = 0 THEN RatZero ELSE Rat(10 * k - 6, 10 * max), Rat(10 * k + 6, 10 * max))
+Lo06(max, k) == IF k = 0 THEN RatZero ELSE Rat(10 * k - 6, 10 * max)
+Hi06(max, k) == Rat(10 * k + 6, 10 * max)
+Within06(curve, max, k, x) == OnCurve(curve, RatOfDy(x), Lo06(max, k), Hi06(max, k))
 (* the same with 0.5: exact rounding of the curve *)
 Within05(curve, max, k, x) ==
   OnCurve(curve, RatOfDy(x), IF k = 0 THEN RatZero ELSE Rat(2 * k - 1, 2 * max), Rat(2 * k + 1, 2 * max))
-FidelityDecided(curve, max, k, x) ==
-  curve = "linear" \/ \A par \in Pars(curve) :
-     (k = 0 \/ Decided(par, Rat(10 * k - 6, 10 * max), RatOfDy(x))) /\ Decided(par, Rat(10 * k + 6, 10 * max), RatOfDy(x))
+
+(* A whole run [xf, xl] of inputs with code k: f is increasing, so the lower bound needs checking at the first input
+   only and the upper bound at the last.  One pair of outcome sets per admissible parameter set; code 0 has no lower
+   bound to check (f >= 0). *)
+RunVerdicts(curve, max, k, xf, xl) ==
+  {<<IF k = 0 THEN {} ELSE CmpSet(par, Lo06(max, k), RatOfDy(xf)), CmpSet(par, Hi06(max, k), RatOfDy(xl))>> : par \in Pars(curve)}
+RunWithin06(vs) == \E v \in vs : v[1] # {1} /\ v[2] # {-1}
+RunUndecided(vs) == \E v \in vs : 0 \in v[1] \/ 0 \in v[2]
 
 -----------------------------------------------------------------------------
 (* Floating point results: tolerances are expressed on the ENCODED value Y: tol(Y) = Y * 2^-RelBits + 2^-AbsBits.
